@@ -453,8 +453,8 @@ class BindStateBase:
 
         The expected event is defined by the State's sent_cmd, rcvd_msg methods.
         """
-        try:
-            await asyncio.wait_for(self._fut, timeout)
+        try:  # shield: wait_for() would cancel _fut, and set_exception() then fail
+            await asyncio.wait_for(asyncio.shield(self._fut), timeout)
         except TimeoutError:
             self._handle_wait_timer_expired(timeout)
         else:
